@@ -3,7 +3,7 @@ from symx.api import *
 
 PROPERTY = 'C20'
 LEVEL = 'other'
-FILES = ['mesonbuild/cargo/version.py', 'mesonbuild/cargo/cfg.py', 'mesonbuild/utils/universal.py']
+FILES = ['mesonbuild/cargo/version.py', 'mesonbuild/cargo/cfg.py', 'mesonbuild/utils/universal.py', 'mesonbuild/cargo/manifest.py']
 ENCODED = ['cargo.version.split', 'SemVer.__init__/__cmp/__lt__/__le__/__gt__/__ge__/__eq__/__ne__/next_ver/has_prerelease',
            'cargo_parse (lru_cache stripped) and its compare closure', 'cargo.version.api/_api_of', 'cargo.cfg.lexer/parse/_parse/_eval_cfg/eval_cfg',
            'mesonlib.lookahead', '_SEMVER_TOK_RE (interpreted from CPython\'s parse tree)']
@@ -391,6 +391,40 @@ def ob_cfg_free(n):
     return h
 
 
+def ob_dependency_update():
+    """cargo.manifest.Dependency: the version requirement of a dependency is replaced (update_version: a Cargo.lock pin) after `accepts_version` and / or `api`
+    may already have been read - every later answer is the one for the NEW requirement (what cargo_parse / api give for it), never a remembered one"""
+    def h():
+        from mesonbuild.cargo import manifest
+        D = '0123456789'
+        req1 = OPS[choose(len(OPS), 'op1')] + '1.' + sym_str(1, 'r', alphabet=D)
+        req2 = OPS[choose(len(OPS), 'op2')] + ['1.', '2.'][choose(2, 'major2')] + sym_str(1, 's', alphabet=D)
+        vs = ['1.', '2.'][choose(2, 'vmajor')] + sym_str(1, 'v', alphabet=D) + '.0'
+        dep = manifest.Dependency('x', req1)
+        read_acc = choose(2, 'accepts_version read before the update'); read_api = choose(2, 'api read before the update')
+        order = choose(2, 'order of the reads')
+        for what in (('acc', 'api') if order else ('api', 'acc')):
+            if what == 'acc' and read_acc:
+                check(eq(dep.accepts_version(vs), V.cargo_parse(req1)(vs)), 'before the update: the declared requirement decides')
+            if what == 'api' and read_api:
+                try: dep.api
+                except ME: pass
+        dep.update_version(req2)
+        check(dep.version is req2 or eq(dep.version, req2), 'the requirement is replaced')
+        check(eq(dep.accepts_version(vs), V.cargo_parse(req2)(vs)), 'after the update: acceptance is decided by the new requirement')
+        try:
+            exp_api = V.api(req2); exp_err = False
+        except ME:
+            exp_api = None; exp_err = True
+        try:
+            got_api = dep.api; got_err = False
+        except ME:
+            got_api = None; got_err = True
+        check(got_err == exp_err and (got_err or eq(got_api, exp_api)), 'after the update: api is the one of the new requirement')
+        cover('updated')
+    return h
+
+
 def obligations(tier):
     out = []
     for opi in range(len(OPS)):
@@ -413,4 +447,5 @@ def obligations(tier):
         out.append(Obligation('cfg[depth %d]' % d, ob_cfg(d), dict(depth=d, args='<=2', names='1-2 chars over ' + NAMEA), labels=('id', 'eq', 'not', 'any', 'all'), max_paths=3000000))
     for n in range(0, 6 if tier == 'quick' else 8):
         out.append(Obligation('cfg-free[%d]' % n, ob_cfg_free(n), dict(length=n, alphabet=CFGA), labels=('rejected',), max_paths=3000000))
+    out.append(Obligation('dependency-update', ob_dependency_update(), dict(real='cargo.manifest.Dependency.accepts_version / api / update_version', requirements='op + 1.d, then op + {1,2}.d (d a symbolic digit)', version='{1,2}.d.0', reads_before_update='accepts_version and/or api, either order'), labels=('updated',), max_paths=3000000))
     return out
